@@ -39,8 +39,19 @@ func c12Strategy(threshold int) CompactionStrategy {
 }
 
 // c12Compact runs the real deduplicating compaction synchronously.
+// the hub has one compaction worker for its whole life: so has every world (what the worker carries from one
+// compaction to the next is part of the behaviour)
+var c12Workers = map[*server.Store]*CompactionWorker{}
+
 func c12Compact(w *server.VWorld, h *server.VHist, abs string, threshold int) error {
-	cw := NewCompactor(w.Store, w.Dsm, zap.NewNop().Sugar())
+	cw := c12Workers[w.Store]
+	if cw == nil {
+		if len(c12Workers) > 8 {
+			c12Workers = map[*server.Store]*CompactionWorker{}
+		}
+		cw = NewCompactor(w.Store, w.Dsm, zap.NewNop().Sugar())
+		c12Workers[w.Store] = cw
+	}
 	return cw.compact(h.DsName(abs), c12Strategy(threshold))
 }
 
